@@ -273,7 +273,20 @@ def judge(ck, calls, d, ctx):
     if "SKIP" in d:
         ck.count("skipped_by_dispatcher")
         return
+    if "FLAGS2" in d and "SAME_FLAGS" not in d:
+        # the child died before it could compare anything (a panic while generating: invalid Rust tokens passed as an attribute value
+        # and the like — C12's business); nothing to say about the round trip
+        ck.count("round_trip_aborted_before_comparison")
+        return
     first = calls[0].split("=")[0] if calls else "default"
+    if k and len(calls) > 1:
+        # attribute the failure to a call that fails on its own, if there is one
+        for c in calls:
+            if failing(rt1([c])) == k:
+                first, calls, d = c.split("=")[0], [c], rt1([c])
+                break
+        else:
+            first = "+".join(sorted({c.split("=")[0] for c in calls}))
     dash = any(("=" in c and c.split("=", 1)[1].split("\x1f")[-1].startswith("-")) or "\x1f-" in c for c in calls)
     data = {"builder_calls": calls, "flags1": [dec(x) for x in d.get("FLAGS1", "").split("\t")], "flags2": [dec(x) for x in d.get("FLAGS2", "").split("\t")] if "FLAGS2" in d else None,
             "clap_or_error": d.get("err", "")[-300:], "context": ctx}
